@@ -33,17 +33,13 @@ Theorem C09_headers_authenticate_roundtrip : forall a o,
 Proof. exact authenticate_roundtrip. Qed.
 Print Assumptions C09_headers_authenticate_roundtrip.
 
-(* F9: the statement for ALL well-formed Authorization values (Basic password arbitrary) is false of the code ... *)
-Theorem C09_headers_authorization_roundtrip_refuted :
-  exists z, wf_authorization z = true /\ authorization_unmarshal_with id_order (authorization_marshal z) = Err.
-Proof. exact authorization_roundtrip_refuted. Qed.
-Print Assumptions C09_headers_authorization_roundtrip_refuted.
-(* ... and holds exactly when, in addition, a Basic password contains no ':' (Digest is unrestricted) *)
-Theorem C09_headers_authorization_roundtrip_partial : forall z o,
-  is_perm o -> wf_authorization z = true -> basic_pass_ok z = true ->
+(* Authorization: Basic credentials with ANY password (the user name cannot contain ':'), Digest credentials
+   without double quotes in the quoted fields.  (F9 fixed by /repo ebc43d3.) *)
+Theorem C09_headers_authorization_roundtrip : forall z o,
+  is_perm o -> wf_authorization z = true ->
   authorization_unmarshal_with o (authorization_marshal z) = Ok z.
-Proof. exact authorization_roundtrip_partial. Qed.
-Print Assumptions C09_headers_authorization_roundtrip_partial.
+Proof. exact authorization_roundtrip. Qed.
+Print Assumptions C09_headers_authorization_roundtrip.
 
 (* KeyMgmt, including the MIKEY message it carries (wf_message is the mikey domain's well-formedness) *)
 Theorem C09_headers_keymgmt_roundtrip : forall h o,
@@ -75,12 +71,11 @@ Proof. exact range_roundtrip_smpte. Qed.
 Print Assumptions C09_headers_range_roundtrip_smpte.
 
 (* NPT times: under Go's documented contract ParseFloat (FormatFloat x) = x, a duration d >= 0 is re-parsed as
-   int64 (float64 (d.Seconds()) * 1e9) - a truncation - so it survives iff that equals d (F8: it does not for
-   1.001 s, see C09_headers_npt_roundtrip_refuted below) *)
+   int64 (math.Round (float64 (d.Seconds()) * 1e9))  (F8 fixed by /repo ffeb757: rounding instead of truncation) *)
 Theorem C09_headers_npt_time_partial : forall d neg m e,
   (0 <= d)%Z -> seconds_of (Z.to_N d) = DFin neg m e -> neg = false ->
   parse_float (format_float (DFin neg m e)) = Some (DFin neg m e) ->
-  npt_unmarshal (npt_marshal d) = Some (to_int64 (dmul_int (DFin neg m e) E9)).
+  npt_unmarshal (npt_marshal d) = Some (to_int64_round (dmul_int (DFin neg m e) E9)).
 Proof. exact npt_time_partial. Qed.
 Print Assumptions C09_headers_npt_time_partial.
 
@@ -110,36 +105,22 @@ Theorem C09_headers_keymgmt_deterministic : forall s o1 o2,
 Proof. exact keymgmt_deterministic. Qed.
 Print Assumptions C09_headers_keymgmt_deterministic.
 
-(* F7: Transport and Range are NOT deterministic ... *)
-Theorem C09_headers_transport_deterministic_refuted :
-  exists s o1 o2, is_perm o1 /\ is_perm o2 /\ transport_unmarshal_with o1 s <> transport_unmarshal_with o2 s.
-Proof. exact transport_deterministic_refuted. Qed.
-Print Assumptions C09_headers_transport_deterministic_refuted.
+(* Transport(s) and Range: a second profile / delivery / range-unit key is an error (F7 fixed by /repo 5cae47d, bf6ff68),
+   so the result is independent of the order on EVERY input *)
+Theorem C09_headers_transport_deterministic : forall s o1 o2,
+  is_perm o1 -> is_perm o2 -> transport_unmarshal_with o1 s = transport_unmarshal_with o2 s.
+Proof. exact transport_deterministic. Qed.
+Print Assumptions C09_headers_transport_deterministic.
 
-Theorem C09_headers_range_deterministic_refuted :
-  exists s o1 o2, is_perm o1 /\ is_perm o2 /\ range_unmarshal_with o1 s <> range_unmarshal_with o2 s.
-Proof. exact range_deterministic_refuted. Qed.
-Print Assumptions C09_headers_range_deterministic_refuted.
+Theorem C09_headers_transports_deterministic : forall s o1 o2,
+  is_perm o1 -> is_perm o2 -> transports_unmarshal_with o1 s = transports_unmarshal_with o2 s.
+Proof. exact transports_deterministic. Qed.
+Print Assumptions C09_headers_transports_deterministic.
 
-(* ... but they are on every input that does not name two different profile/protocol pairs or both delivery
-   methods (Transport), resp. two different range units (Range) *)
-Theorem C09_headers_transport_deterministic_partial : forall s o1 o2,
-  is_perm o1 -> is_perm o2 -> transport_no_conflict s = true ->
-  transport_unmarshal_with o1 s = transport_unmarshal_with o2 s.
-Proof. exact transport_deterministic_partial. Qed.
-Print Assumptions C09_headers_transport_deterministic_partial.
-
-Theorem C09_headers_transports_deterministic_partial : forall s o1 o2,
-  is_perm o1 -> is_perm o2 -> transports_no_conflict s = true ->
-  transports_unmarshal_with o1 s = transports_unmarshal_with o2 s.
-Proof. exact transports_deterministic_partial. Qed.
-Print Assumptions C09_headers_transports_deterministic_partial.
-
-Theorem C09_headers_range_deterministic_partial : forall s o1 o2,
-  is_perm o1 -> is_perm o2 -> range_no_conflict s = true ->
-  range_unmarshal_with o1 s = range_unmarshal_with o2 s.
-Proof. exact range_deterministic_partial. Qed.
-Print Assumptions C09_headers_range_deterministic_partial.
+Theorem C09_headers_range_deterministic : forall s o1 o2,
+  is_perm o1 -> is_perm o2 -> range_unmarshal_with o1 s = range_unmarshal_with o2 s.
+Proof. exact range_deterministic. Qed.
+Print Assumptions C09_headers_range_deterministic.
 
 (* ================= totality: no input string and no iteration order makes a parser panic ======================= *)
 Theorem C09_headers_unmarshal_total : forall (o : order_t) (s : list N),
@@ -153,13 +134,6 @@ Proof.
 Qed.
 Print Assumptions C09_headers_unmarshal_total.
 
-(* ================= F8: NPT seconds are truncated ================= *)
-Theorem C09_headers_npt_roundtrip_refuted :
-  exists h, range_unmarshal_with id_order (range_marshal h) = Ok (mkRange (RNpt 1000999999%Z None) None)
-            /\ r_value h = RNpt 1001000000%Z None.
-Proof. exact npt_roundtrip_refuted. Qed.
-Print Assumptions C09_headers_npt_roundtrip_refuted.
-
 (* ================= non-vacuity ================= *)
 (* a Transport value with every optional field present satisfies wf_transport and round-trips in reversed order *)
 Example C09_ex_transport :
@@ -167,9 +141,13 @@ Example C09_ex_transport :
                        (Some (65535, 2147483647)) (Some (0, 0)) (Some 4294967295) (Some 1) in
   wf_transport t = true /\ transport_unmarshal_with (@rev _) (transport_marshal t) = Ok t.
 Proof. split; vm_compute; reflexivity. Qed.
-(* "RTP/AVP;RTP/AVP/TCP" violates the hypothesis of the partial theorem *)
-Example C09_ex_conflict : transport_no_conflict f7_transport = false /\ range_no_conflict f7_range = false.
-Proof. split; vm_compute; reflexivity. Qed.
+(* regressions: the old F7 / F8 / F9 witnesses *)
+Example C09_ex_regressions :
+  transport_unmarshal_with id_order f7_transport = Err /\ transport_unmarshal_with (@rev _) f7_transport = Err /\
+  range_unmarshal_with id_order f7_range = Err /\ range_unmarshal_with (@rev _) f7_range = Err /\
+  range_unmarshal_with id_order (range_marshal f8_range) = Ok f8_range /\
+  authorization_unmarshal_with id_order (authorization_marshal f9_witness) = Ok f9_witness.
+Proof. repeat split; vm_compute; reflexivity. Qed.
 (* 1.5 s and 2020-02-29T23:59:59Z survive their codecs (so the hypotheses of the partial Range theorem are satisfiable) *)
 Example C09_ex_range_codecs :
   npt_unmarshal (npt_marshal 1500000000%Z) = Some 1500000000%Z /\
@@ -182,6 +160,5 @@ Example C09_ex_session : wf_session (mkSession [65;51] (Some 60)) = true
   /\ session_marshal (mkSession [65;51] (Some 60)) = [65;51;59;116;105;109;101;111;117;116;61;54;48].
 Proof. split; vm_compute; reflexivity. Qed.
 Example C09_ex_basic_ok : wf_authorization (mkAuthorization 0 [117] [112] [] [] [] [] None None) = true
-  /\ basic_pass_ok (mkAuthorization 0 [117] [112] [] [] [] [] None None) = true
-  /\ basic_pass_ok f9_witness = false.
+  /\ wf_authorization f9_witness = true.
 Proof. repeat split; vm_compute; reflexivity. Qed.
